@@ -321,4 +321,299 @@ theorem scanEnd_eq_findEnd' {d : Delims} (hd : d.ScanOK) (s : List Char) (n : Na
     scanEnd d 0 n s = (findEnd n (lex d s)).map (fun p => (unlex d p.1).length) :=
   scanEnd_eq_findEnd hd s.length s n (Nat.le_refl _)
 
+/-! ## `strings.Index` of a delimiter on BYTES = the first delimiter TOKEN of the lexed text -/
+
+theorem isPrefixOfChars_eq : ∀ (p l : List Char), isPrefixOfChars p l = p.isPrefixOf l
+  | [], l => by cases l <;> simp [isPrefixOfChars]
+  | _ :: _, [] => by simp [isPrefixOfChars]
+  | a :: as, b :: bs => by simp [isPrefixOfChars, List.isPrefixOf, isPrefixOfChars_eq as bs]
+
+theorem isPrefixOfChars_append {p l : List Char} (b : List Char) (h : isPrefixOfChars p l = true) :
+    isPrefixOfChars p (l ++ b) = true := by
+  obtain ⟨r, rfl⟩ := isPrefixOfChars_split _ _ h
+  rw [List.append_assoc]; exact isPrefixOfChars_self _ _
+
+def IsDelim (y : Tok) : Prop := y = .pre ∨ y = .suf ∨ y = .sep
+
+/-- one step of the lexer under `LexOK`: exactly one delimiter matches at the head, or none -/
+theorem lex_step {d : Delims} (hd : d.LexOK) (c : Char) (cs : List Char) :
+    (∃ y, IsDelim y ∧ isPrefixOfChars (unlexTok d y) (c :: cs) = true ∧
+        lex d (c :: cs) = y :: lex d ((c :: cs).drop (unlexTok d y).length) ∧ 1 ≤ (unlexTok d y).length ∧
+        ∀ z, IsDelim z → z ≠ y → isPrefixOfChars (unlexTok d z) (c :: cs) = false)
+    ∨ (isPrefixOfChars d.pre (c :: cs) = false ∧ isPrefixOfChars d.suf (c :: cs) = false ∧
+        isPrefixOfChars d.sep (c :: cs) = false ∧ lex d (c :: cs) = .ch c :: lex d cs) := by
+  obtain ⟨pre, suf, sep⟩ := d
+  cases pre with
+  | nil => simp [Delims.LexOK] at hd
+  | cons a as =>
+    cases suf with
+    | nil => simp [Delims.LexOK] at hd
+    | cons b bs =>
+      cases sep with
+      | nil => simp [Delims.LexOK] at hd
+      | cons e es =>
+        simp only [Delims.LexOK] at hd
+        obtain ⟨hab, hae, hbe⟩ := hd
+        by_cases hP : isPrefixOfChars (a :: as) (c :: cs) = true
+        · have hca := isPrefixOfChars_head hP
+          left
+          refine ⟨.pre, Or.inl rfl, hP, lex_pre (by simp) hP, by simp [unlexTok], ?_⟩
+          intro z hz hne
+          rcases hz with rfl | rfl | rfl
+          · exact absurd rfl hne
+          · exact isPrefixOfChars_head_ne (by rw [← hca]; exact Ne.symm hab)
+          · exact isPrefixOfChars_head_ne (by rw [← hca]; exact Ne.symm hae)
+        · have hP' : isPrefixOfChars (a :: as) (c :: cs) = false := by simpa using hP
+          by_cases hS : isPrefixOfChars (b :: bs) (c :: cs) = true
+          · have hcb := isPrefixOfChars_head hS
+            left
+            refine ⟨.suf, Or.inr (Or.inl rfl), hS, lex_suf (by simp) hP' hS, by simp [unlexTok], ?_⟩
+            intro z hz hne
+            rcases hz with rfl | rfl | rfl
+            · exact hP'
+            · exact absurd rfl hne
+            · exact isPrefixOfChars_head_ne (by rw [← hcb]; exact Ne.symm hbe)
+          · have hS' : isPrefixOfChars (b :: bs) (c :: cs) = false := by simpa using hS
+            by_cases hV : isPrefixOfChars (e :: es) (c :: cs) = true
+            · left
+              refine ⟨.sep, Or.inr (Or.inr rfl), hV, lex_sep (by simp) hP' hS' hV, by simp [unlexTok], ?_⟩
+              intro z hz hne
+              rcases hz with rfl | rfl | rfl
+              · exact hP'
+              · exact hS'
+              · exact absurd rfl hne
+            · have hV' : isPrefixOfChars (e :: es) (c :: cs) = false := by simpa using hV
+              exact Or.inr ⟨hP', hS', hV', lex_ch hP' hS' hV'⟩
+
+/-- the tokens before the first token `x`, the tokens behind it (`findPre` = `findTokG .pre`,
+    `findSep` = `findTokG .sep`) -/
+def findTokG (x : Tok) : Toks → Option (Toks × Toks)
+  | [] => none
+  | t :: r => if t = x then some ([], r) else (findTokG x r).map fun p => (t :: p.1, p.2)
+
+theorem findPre_eq_findTokG : ∀ (s : Toks), findPre s = findTokG .pre s
+  | [] => rfl
+  | t :: r => by cases t <;> simp [findPre, findTokG, findPre_eq_findTokG r]
+
+theorem findSep_eq_findTokG : ∀ (s : Toks), findSep s = findTokG .sep s
+  | [] => rfl
+  | t :: r => by cases t <;> simp [findSep, findTokG, findSep_eq_findTokG r]
+
+theorem findTokG_some {x : Tok} : ∀ {s b a : Toks}, findTokG x s = some (b, a) → s = b ++ x :: a
+  | [], _, _, h => by simp [findTokG] at h
+  | t :: r, b, a, h => by
+    unfold findTokG at h
+    by_cases ht : t = x
+    · simp only [ht, if_true, Option.some.injEq, Prod.mk.injEq] at h
+      obtain ⟨rfl, rfl⟩ := h
+      simp [ht]
+    · simp only [ht, if_false, Option.map_eq_some_iff] at h
+      obtain ⟨⟨b', a'⟩, hp, he⟩ := h
+      simp only [Prod.mk.injEq] at he
+      obtain ⟨rfl, rfl⟩ := he
+      simp [findTokG_some hp]
+
+/-- characters different from the first character of the needle are stepped over -/
+theorem stringsIndexC_skip {x : Char} {xs : List Char} (r : List Char) : ∀ (y : List Char) (n : Nat),
+    (∀ c ∈ y, c ≠ x) → Go.stringsIndexC (x :: xs) (y ++ r) n = Go.stringsIndexC (x :: xs) r (n + y.length)
+  | [], n, _ => by simp
+  | c :: y, n, h => by
+    have hc : (x == c) = false := by
+      rw [beq_eq_false_iff_ne]; exact Ne.symm (h c (List.mem_cons_self ..))
+    have ih := stringsIndexC_skip (x := x) (xs := xs) r y (n + 1) (fun z hz => h z (List.mem_cons_of_mem _ hz))
+    simp only [List.cons_append, Go.stringsIndexC, List.isPrefixOf, hc, Bool.false_and, Bool.false_eq_true,
+      if_false, ih, List.length_cons]
+    congr 1; omega
+
+/-- BYTES ↔ TOKENS for `strings.Index(s, X)`, X the prefix or the separator: the byte index of the
+    first occurrence is the length of the rendering of the tokens before the first X token; −1 ↔ no X
+    token.  Hypothesis: the first character of X occurs in no OTHER delimiter. -/
+theorem stringsIndexC_eq_findTok {d : Delims} (hd : d.LexOK) (x : Tok) (hx : x = .pre ∨ x = .sep)
+    (hdis : ∀ y, IsDelim y → y ≠ x → ∀ c ∈ unlexTok d y, (unlexTok d x).head? ≠ some c) :
+    ∀ (k : Nat) (s : List Char), s.length ≤ k → ∀ (n : Nat),
+      Go.stringsIndexC (unlexTok d x) s n
+        = (match findTokG x (lex d s) with
+           | none => -1
+           | some (b, _) => ((n + (unlex d b).length : Nat) : Int)) := by
+  have hxd : IsDelim x := by rcases hx with rfl | rfl; exact Or.inl rfl; exact Or.inr (Or.inr rfl)
+  obtain ⟨x0, xs, hX⟩ : ∃ x0 xs, unlexTok d x = x0 :: xs := by
+    obtain ⟨a, as, b, bs, c, cs, hp, hs, hv, _⟩ : ∃ a as b bs c cs, d.pre = a :: as ∧ d.suf = b :: bs ∧ d.sep = c :: cs ∧ True := by
+      obtain ⟨pre, suf, sep⟩ := d
+      cases pre <;> cases suf <;> cases sep <;> simp [Delims.LexOK] at hd ⊢
+    rcases hx with rfl | rfl
+    · exact ⟨a, as, by simp [unlexTok, hp]⟩
+    · exact ⟨c, cs, by simp [unlexTok, hv]⟩
+  intro k
+  induction k with
+  | zero =>
+    intro s hk n
+    have : s = [] := List.eq_nil_of_length_eq_zero (by omega)
+    subst this
+    simp [hX, Go.stringsIndexC, lex, lexAux, findTokG]
+  | succ k ih =>
+    intro s hk n
+    cases s with
+    | nil => simp [hX, Go.stringsIndexC, lex, lexAux, findTokG]
+    | cons c cs =>
+      simp only [List.length_cons] at hk
+      rcases lex_step hd c cs with ⟨y, hy, hm, hl, hlen, hoth⟩ | ⟨hP, hS, hV, hl⟩
+      · by_cases hyx : y = x
+        · subst hyx
+          have : (unlexTok d y).isPrefixOf (c :: cs) = true := by rw [← isPrefixOfChars_eq]; exact hm
+          rw [hl]
+          simp [Go.stringsIndexC, this, findTokG, unlex]
+        · obtain ⟨r, hr⟩ := isPrefixOfChars_split _ _ hm
+          have hne : ∀ z ∈ unlexTok d y, z ≠ x0 := by
+            intro z hz e
+            have := hdis y hy hyx z hz
+            rw [hX] at this
+            simp [e] at this
+          rw [hl, hr, List.drop_left, hX, stringsIndexC_skip r _ n hne, ← hX,
+            ih r (by have := congrArg List.length hr; simp at this; omega)]
+          simp only [findTokG, hyx, if_false]
+          cases findTokG x (lex d r) with
+          | none => rfl
+          | some p => simp [unlex, Nat.add_assoc]
+      · have hnx : isPrefixOfChars (unlexTok d x) (c :: cs) = false := by
+          rcases hx with rfl | rfl
+          · exact hP
+          · exact hV
+        have hnx' : (unlexTok d x).isPrefixOf (c :: cs) = false := by rw [← isPrefixOfChars_eq]; exact hnx
+        have hcx : Tok.ch c ≠ x := by rcases hx with rfl | rfl <;> simp
+        rw [hl]
+        have e : Go.stringsIndexC (unlexTok d x) (c :: cs) n = Go.stringsIndexC (unlexTok d x) cs (n + 1) := by
+          rw [hX] at hnx' ⊢
+          simp [Go.stringsIndexC, hnx']
+        rw [e, ih cs (by omega)]
+        simp only [findTokG, hcx, if_false]
+        cases findTokG x (lex d cs) with
+        | none => rfl
+        | some p => simp [unlex, unlexTok, Nat.add_assoc, Nat.add_comm 1]
+
+/-! ## segments of a lexed text lex to themselves -/
+
+/-- a segment at the FRONT of a lexed text, cut at a token boundary, re-lexes to itself -/
+theorem lex_unlex_prefix {d : Delims} (hd : d.LexOK) : ∀ (k : Nat) (s : List Char), s.length ≤ k →
+    ∀ (t1 t2 : Toks), lex d s = t1 ++ t2 → lex d (unlex d t1) = t1 := by
+  intro k
+  induction k with
+  | zero =>
+    intro s hk t1 t2 h
+    have : s = [] := List.eq_nil_of_length_eq_zero (by omega)
+    subst this
+    have : t1 = [] := by
+      have h' : ([] : Toks) = t1 ++ t2 := h
+      cases t1 with
+      | nil => rfl
+      | cons _ _ => simp at h'
+    subst this; rfl
+  | succ k ih =>
+    intro s hk t1 t2 h
+    cases t1 with
+    | nil => rfl
+    | cons y t1' =>
+      cases s with
+      | nil => simp [lex, lexAux] at h
+      | cons c cs =>
+        simp only [List.length_cons] at hk
+        rcases lex_step hd c cs with ⟨y', hy, hm, hl, hlen, _⟩ | ⟨hP, hS, hV, hl⟩
+        · rw [hl] at h
+          simp only [List.cons_append, List.cons.injEq] at h
+          obtain ⟨rfl, h2⟩ := h
+          have hi := ih _ (by simp; omega) t1' t2 h2
+          have hc : CleanTok d y' := by rcases hy with rfl | rfl | rfl <;> exact trivial
+          have := lex_unlexTok hd hc (unlex d t1')
+          unfold lex at hi ⊢
+          rw [unlex, this, hi]
+        · rw [hl] at h
+          simp only [List.cons_append, List.cons.injEq] at h
+          obtain ⟨rfl, h2⟩ := h
+          have hi := ih cs (by omega) t1' t2 h2
+          have hcs : cs = unlex d t1' ++ unlex d t2 := by
+            have := unlex_lex' d cs
+            rw [h2, DivR.unlex_append] at this
+            exact this.symm
+          have np : ∀ Y, isPrefixOfChars Y (c :: cs) = false → isPrefixOfChars Y (c :: unlex d t1') = false := by
+            intro Y hY
+            cases hh : isPrefixOfChars Y (c :: unlex d t1') with
+            | false => rfl
+            | true =>
+              have := isPrefixOfChars_append (unlex d t2) hh
+              rw [List.cons_append, ← hcs, hY] at this
+              exact absurd this (by simp)
+          rw [unlex, unlexTok, List.singleton_append, lex_ch (np _ hP) (np _ hS) (np _ hV), hi]
+
+/-- a segment at the END of a lexed text, cut at a token boundary, re-lexes to itself -/
+theorem lex_unlex_suffix {d : Delims} (hd : d.LexOK) : ∀ (k : Nat) (s : List Char), s.length ≤ k →
+    ∀ (t1 t2 : Toks), lex d s = t1 ++ t2 → lex d (unlex d t2) = t2 := by
+  intro k
+  induction k with
+  | zero =>
+    intro s hk t1 t2 h
+    have : s = [] := List.eq_nil_of_length_eq_zero (by omega)
+    subst this
+    have h' : ([] : Toks) = t1 ++ t2 := h
+    have : t2 = [] := by
+      cases t1 <;> cases t2 <;> simp at h' ⊢
+    subst this; rfl
+  | succ k ih =>
+    intro s hk t1 t2 h
+    cases t1 with
+    | nil =>
+      simp only [List.nil_append] at h
+      rw [← h, unlex_lex']
+    | cons y t1' =>
+      cases s with
+      | nil => simp [lex, lexAux] at h
+      | cons c cs =>
+        simp only [List.length_cons] at hk
+        rcases lex_step hd c cs with ⟨y', hy, hm, hl, hlen, _⟩ | ⟨hP, hS, hV, hl⟩
+        · rw [hl] at h
+          simp only [List.cons_append, List.cons.injEq] at h
+          exact ih _ (by simp; omega) t1' t2 h.2
+        · rw [hl] at h
+          simp only [List.cons_append, List.cons.injEq] at h
+          exact ih cs (by omega) t1' t2 h.2
+
+/-- the delimiter triples on which the translated byte-level code of props/resolver.go and the
+    token-level model agree: `ScanOK` (non-empty, pairwise different first characters, no character
+    of the separator starts the prefix or the suffix) and, for `strings.Index`: the first character
+    of the prefix occurs neither in the suffix nor in the separator, the first character of the
+    separator neither in the prefix nor in the suffix.  Implied by "no character shared between
+    two delimiters of a triple". -/
+def Delims.BytesOK (d : Delims) : Prop :=
+  d.ScanOK ∧ (∀ c ∈ d.suf ++ d.sep, d.pre.head? ≠ some c) ∧ (∀ c ∈ d.pre ++ d.suf, d.sep.head? ≠ some c)
+
+instance (d : Delims) : Decidable d.BytesOK := inferInstanceAs (Decidable (_ ∧ _))
+
+/-- `strings.Index(s, prefix)` on bytes ↔ `findPre` on the lexed text -/
+theorem stringsIndex_pre {d : Delims} (hd : d.BytesOK) (s : String) :
+    Go.stringsIndex s (String.ofList d.pre)
+      = (match findPre (lex d s.toList) with
+         | none => -1
+         | some (b, _) => ((unlex d b).length : Int)) := by
+  have := stringsIndexC_eq_findTok hd.1.1 .pre (Or.inl rfl) (by
+    intro y hy hne c hc
+    rcases hy with rfl | rfl | rfl
+    · exact absurd rfl hne
+    · exact hd.2.1 c (List.mem_append_left _ hc)
+    · exact hd.2.1 c (List.mem_append_right _ hc)) s.toList.length s.toList (Nat.le_refl _) 0
+  simp only [unlexTok, Nat.zero_add] at this
+  rw [Go.stringsIndex, String.toList_ofList, this, findPre_eq_findTokG]
+
+/-- `strings.Index(s, separator)` on bytes ↔ `findSep` on the lexed text -/
+theorem stringsIndex_sep {d : Delims} (hd : d.BytesOK) (s : String) :
+    Go.stringsIndex s (String.ofList d.sep)
+      = (match findSep (lex d s.toList) with
+         | none => -1
+         | some (b, _) => ((unlex d b).length : Int)) := by
+  have := stringsIndexC_eq_findTok hd.1.1 .sep (Or.inr rfl) (by
+    intro y hy hne c hc
+    rcases hy with rfl | rfl | rfl
+    · exact hd.2.2 c (List.mem_append_left _ hc)
+    · exact hd.2.2 c (List.mem_append_right _ hc)
+    · exact absurd rfl hne) s.toList.length s.toList (Nat.le_refl _) 0
+  simp only [unlexTok, Nat.zero_add] at this
+  rw [Go.stringsIndex, String.toList_ofList, this, findSep_eq_findTokG]
+
 end Ytk.Resolver
